@@ -288,6 +288,13 @@ func c11Dec(c *fw.Ctx, i int) {
 				bad = "TID/Y-reported-although-T-is-0"
 			case d.X && !d.K && vp.KEYIDX != 0:
 				bad = "KEYIDX-reported-although-K-is-0"
+			// fields that are not on the wire at all decode as zero (also into a receiver that held other values)
+			case !(d.X && d.I) && vp.PictureID != 0:
+				bad = "PictureID-reported-although-I-is-0"
+			case !(d.X && d.L) && vp.TL0PICIDX != 0:
+				bad = "TL0PICIDX-reported-although-L-is-0"
+			case !(d.X && (d.T || d.K)) && (vp.TID != 0 || vp.Y != 0 || vp.KEYIDX != 0):
+				bad = "TID/Y/KEYIDX-reported-although-absent"
 			}
 			if bad != "" {
 				c.Fail("C11/decoder/field-differs/"+bad, "VP8Packet decodes field "+bad+" differently from the encoded value", fw.W("input", fw.Hex(in), "encoded", fmt.Sprintf("%+v", d), "decoded", fmt.Sprintf("%+v", vp)))
@@ -295,6 +302,11 @@ func c11Dec(c *fw.Ctx, i int) {
 			}
 			if !bytes.Equal(body, in[len(enc):]) || !bytes.Equal(vp.Payload, in[len(enc):]) {
 				c.Fail("C11/decoder/payload-differs", fmt.Sprintf("returned %d bytes, %d follow the descriptor", len(body), plen), wit)
+				return
+			}
+			// IsPartitionHead is the S bit of the first octet, whatever the other bits are
+			if head := (&codecs.VP8Packet{}).IsPartitionHead(in); head != d.S {
+				c.Fail("C11/ispartitionhead/differs-from-s-bit", fmt.Sprintf("IsPartitionHead = %v for a descriptor with S=%v (first octet %#02x)", head, d.S, in[0]), wit)
 				return
 			}
 			c.Count("descriptors_decoded_exactly", 1)
